@@ -39,7 +39,7 @@ R_NAMES = ["tpr", "tnr", "fpr", "fnr", "topr", "tonr", "ppv", "npv", "fdr", "for
 CI_NAMES = ["tpr_ci", "tnr_ci", "fpr_ci", "fnr_ci"]
 R_COQ = ["tpr", "tnr", "fpr", "fnr", "topr", "tonr", "ppv", "npv", "fdr", "for_", "class_accuracy", "class_error_rate"]
 BASE = dict(ALIAS, class_accuracy="accuracy", class_error_rate="error_rate")
-ALPHA = 0.05
+ALPHA = 0.125      # not the default level: a level that is dropped on the way shows
 
 
 def _ties():
@@ -168,6 +168,13 @@ def _collect(cm, style):
     out["error_rate"] = _arr(cm.error_rate())
     out["per_class"] = {}
     out["as_dict"] = {}
+    # the level reaches the interval whichever way it is passed, and omitting it means 0.05
+    ci_args_ok = True
+    for name in CI_NAMES:
+        f_ = getattr(cm, name)
+        a_, b_, c_, d_ = f_(alpha=ALPHA), f_(ALPHA), f_(), f_(alpha=0.05)
+        ci_args_ok = ci_args_ok and bool(np.array_equal(a_, b_, equal_nan=True) and np.array_equal(c_, d_, equal_nan=True))
+    out["ci_args_ok"] = ci_args_ok
     for name in Q_NAMES + R_NAMES + CI_NAMES:
         kw = {"alpha": ALPHA} if name.endswith("_ci") else {}
         out["per_class"][name] = _arr(getattr(cm, name)(**kw))
@@ -220,6 +227,13 @@ def run_impl(case):
         df = pd.DataFrame([[t[(r, c)] for c in case["df_cols"]] for r in case["df_rows"]],
                           index=[_name(style, r) for r in case["df_rows"]], columns=[_name(style, c) for c in case["df_cols"]])
         out["df"] = _collect(ConfusionMatrix(matrix=df, classes=names), style)
+    # the same numbers under another leading shape (queried after the first object): results follow the new shape
+    kk = int(np.prod(case["shape"])) if case["shape"] else 1
+    if arr.size:
+        other = [kk] if case["shape"] != [kk] else [1, kk]
+        out["reshaped"] = _collect(ConfusionMatrix(matrix=arr.reshape(tuple(other) + (N, N)).copy(), classes=names),
+                                   style if req is not None else "int")
+        out["reshaped_lead"] = other
     sigma = case["perm"]
     arr2 = arr[..., sigma, :][..., :, sigma]
     names2 = [_name(style, order[i]) for i in sigma]
@@ -395,6 +409,10 @@ def _check_cm(case, col, tag, want_classes, want_mats, lead, fails, exact):
     """all clauses that concern one ConfusionMatrix object. want_mats: list of exact N x N tables (or None: not checked)"""
     def bad(kind, msg):
         fails.append((f"C05/{kind}", f"[{tag}] {msg}"))
+
+    if col.get("ci_args_ok") is False:
+        bad("ci-level", f"a per-class interval method gives different results for alpha={ALPHA} passed by keyword and positionally, or "
+                        "for alpha omitted and alpha=0.05")
 
     if callable(want_mats):
         # no class order was requested: any duplicate-free order over the class set is acceptable, the matrix must be
@@ -588,6 +606,9 @@ def oracle(case, res):
         fails.append(("C05/classes", f"[ndarray] default classes {main_classes} for N = {N}"))
         return fails
     _check_cm(case, r["main"], "ndarray", main_classes, table(order), case["shape"], fails, exact)
+    if r.get("reshaped") is not None:
+        _check_cm(case, r["reshaped"], f"ndarray, same data with leading shape {r['reshaped_lead']}", main_classes, table(order),
+                  r["reshaped_lead"], fails, exact)
     if r.get("list") is not None:
         _check_cm(case, r["list"], "nested lists", main_classes, table(order), case["shape"], fails, exact)
     if case["shape"] == []:
